@@ -49,10 +49,7 @@ func LeafMeaning(l *qast.Leaf, row map[string]Value) (bool, error) {
 			if x.IsNum {
 				return false, &Outside{"pattern on a number"}
 			}
-			if strings.Contains(l.Val.Text, `\\`) {
-				return false, &Outside{"pattern with escapes"}
-			}
-			return GlobMatch(x.Str, l.Val.Text, '*', '?'), nil
+			return GlobMatchEscaped(x.Str, l.Val.Text), nil
 		}
 		c, err := cmp(l.Val)
 		return c == 0, err
@@ -331,7 +328,91 @@ func (p *Probe) strCandidates(field string) []Value {
 	return out
 }
 
+// GlobMatchEscaped: Lucene wildcard pattern as typed in a bare word: a backslash makes the next
+// character literal, * matches any run, ? any one character.
+func GlobMatchEscaped(s, pat string) bool {
+	type el struct {
+		r    rune
+		kind byte // 'l' literal, '*' many, '?' one
+	}
+	var els []el
+	rs := []rune(pat)
+	for i := 0; i < len(rs); i++ {
+		switch {
+		case rs[i] == '\\' && i+1 < len(rs):
+			i++
+			els = append(els, el{rs[i], 'l'})
+		case rs[i] == '*':
+			els = append(els, el{0, '*'})
+		case rs[i] == '?':
+			els = append(els, el{0, '?'})
+		default:
+			els = append(els, el{rs[i], 'l'})
+		}
+	}
+	sr := []rune(s)
+	var rec func(si, pi int) bool
+	rec = func(si, pi int) bool {
+		for pi < len(els) {
+			e := els[pi]
+			switch e.kind {
+			case '*':
+				for k := si; k <= len(sr); k++ {
+					if rec(k, pi+1) {
+						return true
+					}
+				}
+				return false
+			case '?':
+				if si >= len(sr) {
+					return false
+				}
+			default:
+				if si >= len(sr) || sr[si] != e.r {
+					return false
+				}
+			}
+			si++
+			pi++
+		}
+		return si == len(sr)
+	}
+	return rec(0, 0)
+}
+
 func instantiate(pat string) []string {
+	// (escapes: the escaped character is a literal)
+	if strings.Contains(pat, `\`) {
+		var lit []rune
+		rs := []rune(pat)
+		outs := []string{""}
+		_ = lit
+		for i := 0; i < len(rs); i++ {
+			var alts []string
+			switch {
+			case rs[i] == '\\' && i+1 < len(rs):
+				i++
+				alts = []string{string(rs[i])}
+			case rs[i] == '*':
+				alts = []string{"", "q", "qq"}
+			case rs[i] == '?':
+				alts = []string{"q"}
+			default:
+				alts = []string{string(rs[i])}
+			}
+			var next []string
+			for _, o := range outs {
+				for _, a := range alts {
+					next = append(next, o+a)
+				}
+			}
+			outs = next
+			if len(outs) > 27 {
+				outs = outs[:27]
+			}
+		}
+		return outs
+	}
 	outs := []string{""}
 	for _, r := range pat {
 		var next []string
